@@ -66,6 +66,9 @@ def gen(seed, tier):
         per_shape(sh, out, rng, ty="str" if (len(sh) <= 2 or sh == [2, 3, 2]) else "i32")
     for sh in shapes(5, 2, min_rank=5):
         per_shape(sh, out, rng)
+    # larger extents (power-of-two and odd), mixed with unit axes: blocked / fast-path transposes
+    for sh in ([8, 9], [17, 4], [16, 16], [1, 33], [33, 1], [4, 8, 5], [8, 1, 9], [2, 16, 3], [3, 4, 5, 2], [1, 8, 1, 9]):
+        per_shape(sh, out, rng, all_perms=len(sh) <= 3)
     if tier == "thorough":
         for _ in range(150):
             sh = [rng.randint(1, 4) for _ in range(5)]
